@@ -30,6 +30,7 @@ import (
 	"math/rand"
 	"net/http"
 	"os"
+	"runtime/debug"
 	"strings"
 	"sync"
 	"testing"
@@ -180,7 +181,7 @@ func vC18Run(scn vC18Scenario) []map[string]interface{} {
 		defer close(done)
 		defer func() {
 			if r := recover(); r != nil {
-				g.log(map[string]interface{}{"ev": "panic", "what": fmt.Sprint(r)})
+				g.log(map[string]interface{}{"ev": "panic", "what": fmt.Sprint(r), "stack": string(debug.Stack())})
 			}
 		}()
 		c, err := conn.CollectionGet(parent, arvados.GetOptions{UUID: request})
@@ -265,15 +266,19 @@ func vC18Run(scn vC18Scenario) []map[string]interface{} {
 		}
 		return true
 	}
+	// Once the client has cancelled, no further answer is released: the calls still outstanding end
+	// through their cancelled contexts (a released answer could race with the cancellation).
 	unused := 0
+	cancelled := false
 	for i, st := range scn.Steps {
 		if st.K == "cancel" {
 			g.log(map[string]interface{}{"ev": "cancel"})
+			cancelled = true
 			cancelParent()
 			continue
 		}
-		if st.K == "cancelled" {
-			// the hanging backend ends by itself once its context is cancelled (the stub logs it)
+		if st.K == "cancelled" || cancelled {
+			// a hanging backend ends by itself once its context is cancelled (the stub logs it)
 			continue
 		}
 		if !waitFor(st.B) {
@@ -291,13 +296,16 @@ func vC18Run(scn vC18Scenario) []map[string]interface{} {
 	for !isDone() {
 		select {
 		case a := <-g.arrivals:
-			if ans, ok := answerOf(a.b); ok {
+			if ans, ok := answerOf(a.b); ok && !cancelled {
 				a.release <- ans
 			}
 		case <-done:
 		case <-time.After(200 * time.Millisecond):
-			g.log(map[string]interface{}{"ev": "cancel"})
-			cancelParent()
+			if !cancelled {
+				g.log(map[string]interface{}{"ev": "cancel"})
+				cancelled = true
+				cancelParent()
+			}
 			select {
 			case <-done:
 			case <-time.After(20 * time.Second):
